@@ -521,6 +521,7 @@ type vPair struct {
 	Kind      string  `json:"kind"`      // generator's label (distribution statistics only)
 	Delayed   bool    `json:"delayed,omitempty"`   // delayed-VDR schedule: the DAG verifier sees this transaction earlier than the ambassador
 	DagBefore int     `json:"dagBefore,omitempty"` // ... namely just before the pair with this index is processed
+	Pre       []*vMgr `json:"pre,omitempty"`       // publishing path: Manager.Update calls made on the node right before this pair is delivered
 	Ev        *vEv    `json:"ev,omitempty"`        // entry layer: the pair arrives as a DAG event at the subscription ambassador.Start makes
 	tx        vTx     // parsed
 	payload   []byte
@@ -611,6 +612,7 @@ type vNode struct {
 	reached  bool
 	ack      string
 	faultHit bool // the injected failing store call was executed in the last viaEntry
+	onCreate func(t network.Template) (dag.Transaction, error) // publishing path: what networkClient.CreateTransaction does
 }
 
 func vNewNode(t *testing.T, ctrl *gomock.Controller, path string) *vNode {
@@ -1045,6 +1047,7 @@ type vGen struct {
 	pairs   []*vPair
 	pending func(ok bool) // bookkeeping to run once the outcome of the last pair is known
 	queued  []func() *vPair // follow-up steps to take next
+	preQueue []*vMgr // refused Manager.Update attempts, attached to the next pair
 	runDelayed func(ps []*vPair, pend []func(bool)) // delayed-VDR chunk: all pass the DAG verifier first, then the ambassador
 }
 
@@ -2060,6 +2063,17 @@ func (r *vRunner) runHistory(h int, label string, noVerify bool, pairs []*vPair,
 			classes = append(classes, "dropped:"+admitted[i]) // never reaches the ambassador
 			continue
 		}
+		for j, m := range p.Pre {
+			res := n.runManager(m)
+			b, _ := json.Marshal(vMgrOp{Op: "mgr", H: h, I: i, J: j, ID: m.ID, Has: m.Has, Doc: res.view, SvcOk: res.svcOk})
+			r.opsW.Write(b)
+			r.opsW.WriteByte('\n')
+			note := ""
+			if p.Kind == "mgr:published" && j == len(p.Pre)-1 && (res.class != "ok" || res.kid != p.tx.SigningKeyID()) {
+				note = " NONDETERMINISTIC(first-run published with kid " + p.tx.SigningKeyID() + ")"
+			}
+			fmt.Fprintf(r.implW, "mgr %d.%d.%d %s%s\n", h, i, j, res.line(), note)
+		}
 		before := n.dbDigest()
 		notified := n.notified
 		// independent signature check in the state the ambassador sees BEFORE it processes the pair (afterwards the
@@ -2172,6 +2186,10 @@ func (r *vRunner) genHistory(h int, rng *rand.Rand, steps int, kind string, noVe
 	var first []string
 	run := func(p *vPair) bool {
 		var class string
+		if len(g.preQueue) > 0 && !p.Delayed {
+			p.Pre = append(g.preQueue, p.Pre...)
+			g.preQueue = nil
+		}
 		if p.Ev != nil {
 			class = n.viaEntry(p)
 		} else {
@@ -2214,6 +2232,12 @@ func (r *vRunner) genHistory(h int, rng *rand.Rand, steps int, kind string, noVe
 			g.queued = g.queued[1:]
 			if p := q(); p != nil {
 				run(p)
+				continue
+			}
+		}
+		if g.rng.Intn(6) == 0 { // the node's own publishing path: Manager.Update on the state reached so far
+			if mp := g.mgrStep(n); mp != nil {
+				run(mp)
 				continue
 			}
 		}
